@@ -106,6 +106,23 @@ fn depuncture(p: &[bool], ys: &[i64], ty: Ty) -> String {
     }))
 }
 
+/// One `Interleaver` object (and a clone taken after its first use) applied to blocks of OTHER lengths first
+/// (`warm`: row counts), alternating interleave / deinterleave, then the judged call on `xs`.
+fn reused(c: usize, bw: bool, warm: &[usize], xs: &[i64], de: bool) -> String {
+    let (warm, xs) = (warm.to_vec(), xs.to_vec());
+    res(guarded(move || {
+        let il = Interleaver::new(c, bw);
+        let mut cl = il.clone();
+        for (i, &r) in warm.iter().enumerate() {
+            let v: Vec<i64> = (0..(c * r) as i64).collect();
+            if i % 2 == 0 { let _ = il.interleave(&Array1::from_vec(v)); } else { let _ = il.deinterleave(&v); }
+            if i == 0 { cl = il.clone(); }
+        }
+        let obj = if warm.len() % 2 == 0 { &il } else { &cl };
+        Ok(if de { obj.deinterleave(&xs) } else { obj.interleave(&Array1::from_vec(xs)).to_vec() })
+    }))
+}
+
 fn values(rng: &mut Rng, len: usize, ty: Ty, index_valued: bool) -> Vec<i64> {
     (0..len)
         .map(|i| match ty {
@@ -135,6 +152,10 @@ pub fn run(ctx: &mut Ctx, replay: Option<&[String]>) {
             let out = match t[1] {
                 "il" => interleave(t[2].parse().unwrap(), t[3] == "1", &ints(t[4]), Ty::I64),
                 "dil" => deinterleave(t[2].parse().unwrap(), t[3] == "1", &ints(t[4]), Ty::I64),
+                "ilw" | "dilw" => {
+                    let warm: Vec<usize> = t[4].split(',').filter_map(|x| x.parse().ok()).collect();
+                    reused(t[2].parse().unwrap(), t[3] == "1", &warm, &ints(t[5]), t[1] == "dilw")
+                }
                 "pu" => puncture(&pb(t[2]), &ints(t[3]), Ty::I64),
                 "dp" => depuncture(&pb(t[2]), &ints(t[3]), Ty::I64),
                 _ => continue,
@@ -180,6 +201,19 @@ pub fn run(ctx: &mut Ctx, replay: Option<&[String]>) {
             let o = deinterleave(c, bw, &xs, ty);
             ctx.emit(&format!("c15 dil {} {} {}", c, bw as u8, int_list(&xs)), &o, true, &["deinterleave-random", tyn, kind]);
         }
+    }
+    // (b') one interleaver object used for several block lengths in a row ("for every block length divisible by the column count")
+    for _ in 0..ctx.scale(300, 30000) {
+        let c = rng.range(1, 12);
+        let bw = rng.chance(1, 2);
+        let warm: Vec<usize> = (0..rng.range(1, 3)).map(|_| rng.range(1, 12)).collect();
+        let r = rng.range(1, 12);
+        let idxv = rng.chance(1, 2);
+        let xs = values(&mut rng, c * r, Ty::I64, idxv);
+        let de = rng.chance(1, 2);
+        let o = reused(c, bw, &warm, &xs, de);
+        ctx.emit(&format!("c15 {} {} {} {} {}", if de { "dilw" } else { "ilw" }, c, bw as u8,
+            warm.iter().map(|w| w.to_string()).collect::<Vec<_>>().join(","), int_list(&xs)), &o, c > 1 && r > 1, &["interleaver-object-reused-for-other-lengths"]);
     }
     // (c) all patterns of length <= 6 (incl. all-false and empty) x block sizes <= 5
     let maxp = ctx.scale(6, 9);
